@@ -19,8 +19,8 @@ func NewConst(ops float64, duration time.Duration) core.Schedule {
 	if ops < 0 {
 		ops = 0
 	}
-	xn := float64(duration) / 1e9 // Seconds.
-	n := int64(ops * xn)
+	// Multiply before dividing: duration/1e9 is not exact for fractional seconds (1000 ops * 1.001 s should be 1001 ops).
+	n := int64(ops * float64(duration) / 1e9)
 	return NewDoAtSchedule(duration, n, constDoAt(ops))
 }
 
